@@ -152,3 +152,18 @@ def observe_events(key, run=None, dec=None, packets=True, recon=True, extra=None
         out.append(x)
     out.append({"ev": "RunEnd"})
     return out
+
+
+def packetize_events(run, packets=None):
+    """Events for PacketizeTrace.tla: observed (display position, frames in the unit, show-existing, eos)."""
+    c = cfg_of(run)
+    pk = packets if packets is not None else av1obu.read_pkts(run["out"] + ".pkts")
+    st = av1obu.new_state()
+    out = [{"ev": "Run", "n": len(ev_of(run, "Send")), "levels": int(c.get("hierarchical_levels", 4))}]
+    for i, p in enumerate(pk):
+        r = av1obu.parse_packet(p["data"], st)
+        fr = [o["fh"] for o in r["obus"] if "fh" in o]
+        sx = 1 if (fr and fr[-1].get("show_existing_frame")) else 0
+        out.append({"ev": "TU", "pos": i, "frames": 0 if sx else len(fr), "showex": sx, "eos": 1 if p["flags"] & EOS else 0})
+    out.append({"ev": "End"})
+    return out
